@@ -187,8 +187,8 @@ theorem capture_new (txnID now cutoff : Nat) (v : Bytes) (stored : Option Bytes)
     captureSpec (captureCfg txnID now cutoff) (some v) stored = .ok (some (liveBytes now txnID v)) := by
   simp only [captureSpec, hs]
   rw [merge_absent, maskedFlags_raw]
-  have : ¬ (Header.isDeleted (0 : UInt8) = true ∧ (rawEntry [] v).ts < (captureCfg txnID now cutoff).cutoff) := by
-    intro h; exact absurd h.1 (by decide)
+  have : ¬ (entryDeleted (captureCfg txnID now cutoff) (rawEntry [] v) = true ∧ (rawEntry [] v).ts < (captureCfg txnID now cutoff).cutoff) := by
+    intro h; rw [entryDeleted_raw] at h; exact absurd h.1 (by decide)
   rw [if_neg this]
   have := addHeader_capture_live txnID now cutoff [] v
   rw [maskedFlags_raw] at this
